@@ -1477,8 +1477,207 @@ def canon_rights(data):
     return data
 
 
+# ---------------------------------------------------------------------------
+# HIR: a text iterator consumed by a fixed sequence of `next()` calls is read as positional access
+
+STR_ITERS = ("core::str::<impl str>::bytes", "core::str::<impl str>::chars")
+
+
+def _peel_ref(e):
+    while isinstance(e, dict) and (e.get("k") in ("AddrOf", "DropTemps", "Use") or (e.get("k") == "Unary" and e.get("op") == "Deref")):
+        e = e["e"]
+    return e
+
+
+def _all_binders(n, out):
+    if isinstance(n, list):
+        for x in n:
+            _all_binders(x, out)
+    elif isinstance(n, dict):
+        if n.get("k") == "PBind" and "id" in n:
+            out[n["id"]] = n
+        for key, v in n.items():
+            if isinstance(v, (dict, list)) and key not in ("sp", "osp", "to"):
+                _all_binders(v, out)
+
+
+def _branch_ctx(chain):
+    """the conditional contexts on the way down `chain` (ancestors + node): ((id(node), which branch), ...), or None when the way
+    passes through a loop or a closure"""
+    ctx = []
+    for p_, c in zip(chain, chain[1:]):
+        k = p_.get("k")
+        if k in ("Loop", "Closure", "While", "ForLoop"):
+            return None
+        if k == "If":
+            if c is p_.get("then"):
+                ctx.append((id(p_), "then"))
+            elif c is p_.get("else"):
+                ctx.append((id(p_), "else"))
+        elif k == "Match":
+            for i, a in enumerate(p_["arms"]):
+                if c is a["body"] or c is a.get("guard"):
+                    # a guard of arm i runs only if the patterns of the earlier arms (or their guards) failed: its own context
+                    ctx.append((id(p_), i))
+        elif k == "Binary" and p_.get("op") in ("&&", "||") and c is p_.get("r"):
+            ctx.append((id(p_), "r"))
+        elif k == "SLet" and c is p_.get("els"):
+            ctx.append((id(p_), "els"))
+    return tuple(ctx)
+
+
+def linearize_iters(fn_hir, notes=None, path=""):
+    """`let mut it = text.bytes(); a = it.next()?; b = it.next()?;` : when the iterator (and every `&mut` alias of it, e.g. the
+    parameter of an expanded helper) is used for nothing but `next()` calls that lie on one straight line - each later call runs
+    only after all earlier ones, no loop in between - the k-th call is `text.bytes().nth(k)` on a fresh iterator.  Anything else
+    (a loop, a call in only one arm followed by one after the branch, the iterator handed to another function) leaves the code
+    as it is.  Returns the number of iterators rewritten."""
+    body = fn_hir.get("body")
+    if not isinstance(body, dict):
+        return 0
+    binders = {}
+    _all_binders(fn_hir, binders)
+    lets = {}       # binder id -> (SLet node, ancestors)
+    for n, anc in hir.walk(body):
+        if n.get("k") == "SLet" and n.get("els") is None and isinstance(n.get("pat"), dict) and n["pat"].get("k") == "PBind" \
+                and not n["pat"].get("sub") and n.get("init") is not None:
+            lets[n["pat"]["id"]] = (n, anc)
+    roots = {}
+    for lid, (n, anc) in lets.items():
+        e = _peel_ref(n["init"])
+        if e.get("k") == "MethodCall" and e.get("callee") in STR_ITERS and not e.get("args"):
+            base = _peel_ref(e["recv"])
+            to = base.get("to") or {}
+            if base.get("k") == "Path" and to.get("res") == "local":
+                b = binders.get(to.get("id"))
+                if b is not None and "Mut" not in str(b.get("mode", "")).split(",")[-1]:
+                    roots[lid] = e
+    if not roots:
+        return 0
+    alias = {r: r for r in roots}
+    changed = True
+    while changed:
+        changed = False
+        for lid, (n, anc) in lets.items():
+            if lid in alias:
+                continue
+            e = _peel_ref(n["init"])
+            to = e.get("to") or {}
+            if e.get("k") == "Path" and to.get("res") == "local" and to.get("id") in alias:
+                alias[lid] = alias[to["id"]]
+                changed = True
+    uses = {r: [] for r in roots}        # root -> [(call node, chain)]
+    bad = set()
+    for n, anc in hir.walk(body):
+        to = n.get("to") or {}
+        if n.get("k") == "Path" and to.get("res") == "local" and to.get("id") in alias:
+            root = alias[to["id"]]
+            # climb through & / * wrappers
+            i = len(anc) - 1
+            cur = n
+            while i >= 0 and (anc[i].get("k") in ("AddrOf", "DropTemps", "Use") or (anc[i].get("k") == "Unary" and anc[i].get("op") == "Deref")) \
+                    and anc[i].get("e") is cur:
+                cur = anc[i]
+                i -= 1
+            par = anc[i] if i >= 0 else None
+            if par is None:
+                bad.add(root)
+            elif par.get("k") == "SLet" and par.get("init") is cur and par["pat"].get("id") in alias and par["pat"]["id"] not in roots:
+                pass        # the alias declaration itself
+            elif par.get("k") == "MethodCall" and par.get("recv") is cur and par.get("name") == "next" and not par.get("args") \
+                    and par.get("callee") == "std::iter::Iterator::next":
+                uses[root].append((par, anc[:i] + (par,)))
+            else:
+                bad.add(root)
+    done = 0
+    for root, calls_ in uses.items():
+        if root in bad or not calls_:
+            continue
+        let_node, let_anc = lets[root]
+        blk = let_anc[-1] if let_anc else None
+        ctxs = []
+        ok = blk is not None
+        for call, chain in calls_:
+            if not ok:
+                break
+            idx = next((j for j, x in enumerate(chain) if x is blk), None)
+            if idx is None:
+                ok = False
+                break
+            c = _branch_ctx(chain[idx:])
+            if c is None:
+                ok = False
+                break
+            ctxs.append(c)
+        if not ok:
+            continue
+        prev = ()
+        for c in ctxs:
+            if c[:len(prev)] != prev:
+                ok = False
+                break
+            prev = c
+        if not ok:
+            continue
+        for k, (call, chain) in enumerate(calls_):
+            sp = call.get("sp") or call.get("osp")
+            call["name"] = "nth"
+            call["callee"] = "std::iter::Iterator::nth"
+            call.pop("resolved", None)
+            call["recv"] = copy.deepcopy(roots[root])
+            call["args"] = [{"k": "Lit", "lk": "int", "v": k, "ty": "usize", "sp": sp}]
+        done += 1
+        if notes is not None:
+            notes.append("%s: iterator `%s` consumed by %d straight-line next() calls read as positional access" %
+                         (path, let_node["pat"].get("name"), len(calls_)))
+    return done
+
+
+def uniq_try_names(fn_hir):
+    """the `val` / `residual` bindings of several expanded `?` can end up nested inside one another (the continuation of an expanded
+    helper lives in the `Continue` arm): give each its own name so that value numbering by name cannot confuse them"""
+    seen = {}
+    stack = [fn_hir]
+    pb = []
+    while stack:
+        x = stack.pop()
+        if isinstance(x, list):
+            stack.extend(x)
+        elif isinstance(x, dict):
+            if x.get("k") == "PBind" and x.get("name") in ("val", "residual") and x.get("inl") and "id" in x:
+                pb.append(x)
+            stack.extend(v for key, v in x.items() if isinstance(v, (dict, list)) and key not in ("sp", "osp"))
+    if len(pb) < 2:
+        return 0
+    pb.sort(key=lambda x: x["id"])
+    namemap = {}
+    for i, x in enumerate(pb):
+        namemap[x["id"]] = "%s_q%d" % (x["name"], i + 1)
+
+    def ren(n):
+        if isinstance(n, list):
+            for y in n:
+                ren(y)
+        elif isinstance(n, dict):
+            if n.get("k") == "PBind" and n.get("id") in namemap:
+                n["name"] = namemap[n["id"]]
+            to = n.get("to")
+            if isinstance(to, dict) and to.get("res") == "local" and to.get("id") in namemap:
+                to["name"] = namemap[to["id"]]
+            for key, v in n.items():
+                if isinstance(v, (dict, list)) and key not in ("sp", "osp", "to"):
+                    ren(v)
+    ren(fn_hir)
+    return len(pb)
+
+
 def apply(data, known=None):
     data = _apply(data, known)
+    if not os.environ.get("VERIF_NO_LINEARIZE"):
+        for f in data["fns"]:
+            if f.get("hir") and f["kind"] != "Closure":
+                uniq_try_names(f["hir"])
+                linearize_iters(f["hir"], data.setdefault("inline_notes", []), f["path"])
     if KNOWN_ACCESSORS and not os.environ.get("VERIF_NO_CANON_RIGHTS"):
         data = canon_rights(data)
     if KNOWN_LOCALS and not os.environ.get("VERIF_NO_CANON_LOCALS"):
